@@ -1,6 +1,8 @@
 #pragma once
 #include <stddef.h>
+#ifndef FS_MAXLINES
 #define FS_MAXLINES 4
+#endif
 /* ghost file: the harness provides up to FS_MAXLINES lines; getline hands
  * them out one by one, each in a buffer of exactly len+1 bytes */
 struct fs_ghost {
